@@ -572,6 +572,22 @@ func (r *FuncResult) modelTerms(o *Obligation) []string {
 					out = append(out, app("select", name, top.params[i].Term))
 				}
 			}
+		case srt == "(Array Int (Array Int Int))" || srt == "(Array Int (Array Int Bool))":
+			if top == nil {
+				continue
+			}
+			for i, p := range top.fn.Params {
+				sl, ok := p.Type().Underlying().(*types.Slice)
+				if !ok || i >= len(top.params) || top.params[i].Term == "" {
+					continue
+				}
+				if leaf == "E:"+typeName(sl.Elem()) {
+					pt := top.params[i].Term
+					for k := 0; k < 8; k++ {
+						out = append(out, app("select", app("select", name, app("lref", pt)), app("+", app("loff", pt), num(int64(k)))))
+					}
+				}
+			}
 		}
 	}
 	return out
